@@ -17,6 +17,16 @@
 #ifndef VF_CV_BIG_BLOCK
 #define VF_CV_BIG_BLOCK 512
 #endif
+// VF_CV_HEADER (opt-in, bytes): the block starts VF_CV_HEADER bytes before the returned address, as with the real
+// alignedMalloc (platform.h: malloc(bytes + alignment), the returned address is preceded by at least sizeof(void*)
+// bytes of the same malloc block that hold the recovery pointer).  The pointer-caching iterator's operator-- forms
+// `bucketStart_ - 1` and compares it with `bucketStart_`; CBMC compares offsets of out-of-object pointers as
+// unsigned (start - 1 < start is false) and flags the relation, so without the header every backward bucket hop is
+// a false alarm.  With the header `start - 1` is inside the object, exactly as it is inside the real malloc block
+// (element size 4 <= 8).
+#ifndef VF_CV_HEADER
+#define VF_CV_HEADER 0
+#endif
 static size_t vfCvLastRequest;  // size of the most recent request (for layout checks)
 static size_t vfCvRequests;     // number of requests so far
 namespace dispenso {
@@ -25,13 +35,13 @@ inline void* vfModelAlignedMalloc(size_t bytes, size_t /*alignment*/) {
   vfCvLastRequest = bytes;
   ++vfCvRequests;
   if (bytes <= VF_CV_SMALL_BLOCK) {
-    return ::malloc(VF_CV_SMALL_BLOCK);
+    return static_cast<char*>(::malloc(VF_CV_HEADER + VF_CV_SMALL_BLOCK)) + VF_CV_HEADER;
   }
   vf_check(bytes <= VF_CV_BIG_BLOCK, "harness bound: allocation request fits the modelled block size");
-  return ::malloc(VF_CV_BIG_BLOCK);
+  return static_cast<char*>(::malloc(VF_CV_HEADER + VF_CV_BIG_BLOCK)) + VF_CV_HEADER;
 }
 inline void vfModelAlignedFree(void* p) {
-  ::free(p);
+  ::free(p ? static_cast<char*>(p) - VF_CV_HEADER : p);
 }
 } // namespace detail
 } // namespace dispenso
